@@ -92,6 +92,7 @@ def run(ctx, rep):
     ub.p3(ctx, rep, rule="M5")
     from . import sib
     sib.m4(F, rep)
+    sib.resets(F, rep, "M9")
     # M6: the block writer that reconstruction ends in (shared with C07/W2): reference tokens keep their distance,
     # every bit write fits the 32-bit bit buffer
     from . import c07
